@@ -346,6 +346,89 @@ def violates_roundtrip(values_u, values_s):
     return None
 
 
+def violates_fixed_width(n, v):
+    """write_nbits/write_uint_lit/write_bitarray/write_bytes: in range -> read back identically by both
+    readers; out of range -> OutOfRangeError and nothing written (REAL code)."""
+    from vc2_conformance.bitstream.io import BitstreamReader, BitstreamWriter, to_bit_offset
+    from vc2_conformance.bitstream.exceptions import OutOfRangeError
+    from vc2_conformance.pseudocode.state import State
+    from vc2_conformance.decoder import io as dio
+    from bitarray import bitarray
+
+    try:
+        for name in ("nbits", "uint_lit", "bitarray", "bytes"):
+            if name == "uint_lit" and n % 8:
+                continue
+            if name == "bytes" and n % 8:
+                continue
+            f = BytesIO()
+            w = BitstreamWriter(f)
+            in_range = 0 <= v < (1 << n)
+            if name in ("bitarray", "bytes"):
+                # a value that is one element too long must be rejected
+                in_range = True
+            try:
+                if name == "nbits":
+                    w.write_nbits(n, v)
+                elif name == "uint_lit":
+                    w.write_uint_lit(n // 8, v)
+                elif name == "bitarray":
+                    bits = bitarray([(abs(v) >> i) & 1 for i in range(n)])
+                    w.write_bitarray(n, bits)
+                else:
+                    by = (abs(v) % (1 << n)).to_bytes(n // 8, "big")
+                    w.write_bytes(n // 8, by)
+                raised = False
+            except OutOfRangeError:
+                raised = True
+            pos = to_bit_offset(*w.tell())
+            w.flush()
+            if in_range and raised:
+                return "write_%s(%d, %d) raised OutOfRangeError for an in-range value" % (name, n, v)
+            if not in_range:
+                if not raised:
+                    return "write_%s(%d, %d): out-of-range value accepted; wrote %d bits" % (name, n, v, pos)
+                if pos != 0 or f.getvalue() not in (b"",):
+                    return "write_%s(%d, %d): bits written before the range error" % (name, n, v)
+                continue
+            if pos != n:
+                return "write_%s(%d, %d) advanced %d bits" % (name, n, v, pos)
+            data = f.getvalue()
+            r = BitstreamReader(BytesIO(data))
+            st = State()
+            dio.init_io(st, BytesIO(data))
+            if name in ("nbits", "uint_lit"):
+                a = r.read_nbits(n) if name == "nbits" else r.read_uint_lit(n // 8)
+                b = dio.read_nbits(st, n) if name == "nbits" else dio.read_uint_lit(st, n // 8)
+                if a != v or b != v:
+                    return "wrote %s %d in %d bits, readers returned %d / %d" % (name, v, n, a, b)
+                if to_bit_offset(*r.tell()) != n or to_bit_offset(*dio.tell(st)) != n:
+                    return "position after %s differs" % name
+            elif name == "bitarray":
+                a = r.read_bitarray(n)
+                if a != bits:
+                    return "bitarray %s read back as %s" % (bits, a)
+            else:
+                a = r.read_bytes(n // 8)
+                if a != by:
+                    return "bytes %r read back as %r" % (by, a)
+        # too-long sequences
+        for name in ("bitarray", "bytes"):
+            f = BytesIO()
+            w = BitstreamWriter(f)
+            try:
+                if name == "bitarray":
+                    w.write_bitarray(n, bitarray([1] * (n + 1)))
+                else:
+                    w.write_bytes(n // 8, b"\xff" * (n // 8 + 1))
+                return "write_%s accepted a value longer than %d" % (name, n)
+            except OutOfRangeError:
+                pass
+    except Exception as e:  # noqa
+        return "raised %s: %s" % (type(e).__name__, e)
+    return None
+
+
 def violates_readers_agree(data, length, n_reads=3):
     """Both readers on the same bit string inside a bounded block of `length` >= 0 bits."""
     from vc2_conformance.bitstream.io import BitstreamReader, to_bit_offset
@@ -446,6 +529,11 @@ class Prop(object):
             why = violates_roundtrip(us, ss)
             if why:
                 return {"kind": "roundtrip", "uints": us, "sints": ss, "why": why}
+        for n in list(range(0, 34)) + [40, 48, 64, 65, 128]:
+            for v in sorted(set([-1, 0, 1, (1 << n) - 1, (1 << n), (1 << n) + 1, (1 << n) >> 1, rng.getrandbits(n + 1)])):
+                why = violates_fixed_width(n, v)
+                if why:
+                    return {"kind": "fixed_width", "n": n, "v": v, "why": why}
         for a in range(256):
             for b in (0, 255, 0xA5, 0x5A):
                 for L in range(0, 18):
@@ -463,7 +551,9 @@ class Prop(object):
         if not fi:
             print("replay names broken obligations only:", r.get("broken_obligations"))
             return 1
-        if fi["kind"] == "roundtrip":
+        if fi["kind"] == "fixed_width":
+            why = violates_fixed_width(fi["n"], fi["v"])
+        elif fi["kind"] == "roundtrip":
             why = violates_roundtrip(fi["uints"], fi["sints"])
         else:
             why = violates_readers_agree(bytes.fromhex(fi["data"]), fi["length"])
